@@ -127,7 +127,7 @@ class Gen:
 
     def stmt(self, sc, depth, in_loop, in_func):
         r = self.r
-        k = r.randrange(26)
+        k = r.randrange(28)
         cur = sc[-1]
         ints = self.visible(sc, lambda t: t == "int")
         if depth >= self.max_depth and k in (8, 9, 10, 11, 14, 15, 16): k = 0
@@ -261,6 +261,31 @@ class Gen:
             if explicit + n >= nfix:
                 out.append(["expr", ["call", ["v", "log"], [["call", ["v", f], [self.int_expr(sc) for _ in range(explicit)], ["v", arr]]], "-"]])
             cur[arr] = "arr:%d" % n
+            return out
+        if k in (26, 27):
+            # a constant, and the same name declared again by a parameter, a local of a block or a loop variable further in:
+            # read there in unary and binary expressions, as a call argument and as a constant's initialiser
+            self.count("constant-shadowed")
+            c, f, g = self.fresh("kc"), self.fresh("sf"), self.fresh("sg")
+            lit = str(r.randrange(1, 9))
+            arg = self.int_expr(sc)
+            inner_use = r.choice([["bin", "add", ["v", c], ["i", "1"]], ["neg", ["v", c]], ["bin", "mul", ["i", "2"], ["v", c]],
+                                  ["cond", ["bin", "lt", ["v", c], ["i", "0"]], ["v", c], ["bin", "sub", ["v", c], ["i", "3"]]]])
+            out = [["const", [c, ["i", lit]]]]
+            cur[c] = "const"
+            if k == 26:
+                body = [["expr", ["call", ["v", "log"], [inner_use], "-"]], ["ret", ["bin", "add", ["v", c], ["i", "100"]]]]
+                if r.random() < .5:
+                    # through one more function level: the inner function reads the parameter of the outer one
+                    body = [["def", g, ["func", [], "0", [["ret", inner_use]]]], ["ret", ["bin", "add", ["call", ["v", g], [], "-"], ["v", c]]]]
+                out += [["def", f, ["func", [c], "0", body]],
+                        ["expr", ["call", ["v", "log"], [["call", ["v", f], [arg], "-"]], "-"]],
+                        ["expr", ["call", ["v", "log"], [["bin", "add", ["v", c], ["i", "1"]]], "-"]]]
+            else:
+                out += [["block", ["def", c, arg], ["opset", c, "add", ["i", "1"]],
+                         ["for", ["def", f, ["i", "0"]], ["bin", "lt", ["v", f], ["i", "2"]], ["opset", f, "add", ["i", "1"]],
+                          [["expr", ["call", ["v", "log"], [inner_use], "-"]]]]],
+                        ["expr", ["call", ["v", "log"], [["neg", ["v", c]]], "-"]]]
             return out
         if k in (22, 23):
             # self calls in tail position (returned or discarded) with fewer argument expressions than parameters: the
